@@ -30,7 +30,8 @@ type C09Case struct {
 }
 
 var c09Kinds = []string{"flip-seal", "flip-last-block", "flip-last-key", "flip-last-sig", "seal-from-donor", "seal-to-random-secret",
-	"seal-by-attacker", "seal-over-without-signature", "drop-last-block", "swap-last-two", "append-attacker-block"}
+	"seal-by-attacker", "seal-over-without-signature", "drop-last-block", "swap-last-two", "append-attacker-block",
+	"seal-to-64-byte-secret-with-public-key"}
 
 func sealMutation(c C09Case, sealed, donor *wire.Biscuit) *wire.Biscuit {
 	env := sealed.Clone()
@@ -51,6 +52,9 @@ func sealMutation(c C09Case, sealed, donor *wire.Biscuit) *wire.Biscuit {
 		env.Proof = wire.Proof{HasFinal: true, Final: append([]byte{}, donor.Proof.Final...)}
 	case "seal-to-random-secret":
 		env.Proof = wire.Proof{HasSecret: true, Secret: aseed}
+	case "seal-to-64-byte-secret-with-public-key":
+		// "unsealing" without any private key: 32 arbitrary bytes followed by the last announced key
+		env.Proof = wire.Proof{HasSecret: true, Secret: append(append([]byte{}, aseed...), last.NextKey...)}
 	case "seal-by-attacker":
 		env.Proof = wire.Proof{HasFinal: true, Final: sealSignature(apriv, *last)}
 	case "seal-over-without-signature":
